@@ -34,9 +34,9 @@ SHARED = {
 
 
 def P(group, test, race=False, batches=(1, 1), workers=None, watchdog=(600, 3600),
-      crash="violation", level="exploration", min_evals=10):
+      crash="violation", level="exploration", min_evals=10, race_accept=("lib",)):
     return dict(group=group, test=test, race=race, batches=batches, workers=workers,
-                watchdog=watchdog, crash=crash, level=level, min_evals=min_evals)
+                watchdog=watchdog, crash=crash, level=level, min_evals=min_evals, race_accept=race_accept)
 
 
 PROPS = {
@@ -58,8 +58,8 @@ PROPS = {
     # stableconc: schedules / faults on the stable compiler
     "C05": P("stableconc", "TestC05", race=True, batches=(4, 8), workers=4),
     "C06": P("stableconc", "TestC06", race=True, batches=(4, 8), workers=4),
-    "C07": P("stableconc", "TestC07", race=True, batches=(4, 8), workers=4, level="fault_enumeration"),
-    "C08": P("stableconc", "TestC08", race=True, batches=(4, 8), workers=4),
+    "C07": P("stableconc", "TestC07", race=True, batches=(12, 16), workers=1, level="fault_enumeration"),
+    "C08": P("stableconc", "TestC08", race=True, batches=(4, 8), workers=4, race_accept=("lib", "callback")),
     "C16": P("stableconc", "TestC16", race=True, batches=(4, 8), workers=4),
     "C17": P("stableconc", "TestC17"),
     # stabletext: lexer/parser level
